@@ -5,12 +5,17 @@ open Lean Shelx.J
 /-
   C19 driver.  One request = one history:
 
-    {"p":"C19","op":"seq","fix":{"stat":b,"lst":b,"stale":b,"acta":b,"dow":b?}?,          -- default: all repairs present
-     "table":[{"label":s,"size":n,"doc":DOC,"dow":b}],                          -- what the parser says about raw contents
+    {"p":"C19","op":"seq","fix":{"stat":b,"lst":b,"stale":b,"acta":b,"dow":b?,"con":b?}?, -- default: all repairs present
+     "table":[{"label":s,"size":n,"doc":DOC,"dow":b,"lay":LAY?}],               -- what the parser says about raw contents
      "init":STATE,
      "steps":[{"cycles":n|null,"backup":b,"exit":n,"res":{"wrote":s}|"removed"|"untouched","lst":"good|missing|raises|quiet",
+               "con":"plain|raises|nohkl"?,
                "obs":{"st":STATE,"raised":b}}                                   -- what the implementation did
               | {"op":"load","write":s?,"obs":{"st":STATE}}]}                   -- reload()/read_file() between calls
+
+  LAY (optional, in a table entry and in STATE.mem): the line list by keyword — "@UNIT" the UNIT card, "@ACTA:<id>" the
+  ACTA card, "" an entry that prints as nothing, anything else the keyword of another line. With it the answer carries
+  the list-level model (`linesAfter`) and `specLines` on the observed lists (compared without the empty entries).
 
   File contents are symbolic (`Sym`): `raw label` — bytes the harness knows by hash (initial .res, an old .shx-bak, what
   the stand-in wrote); `written d` — what `write_shelx_file` produces for document `d` (the harness parses the real .ins
@@ -34,6 +39,36 @@ structure Entry where
   size : Nat
   doc : Doc String
   dow : Bool
+  lay : Option (List (Line String))
+
+def lineOf (s : String) : Line String :=
+  if s == "@UNIT" then .unit
+  else if s.startsWith "@ACTA:" then .acta (s.drop 6).toNat!
+  else if s == "" then .gap
+  else .other s
+
+def ofLine : Line String → Json
+  | .unit => Json.str "@UNIT"
+  | .acta n => Json.str s!"@ACTA:{n}"
+  | .gap => Json.str ""
+  | .other s => Json.str s
+
+def layOpt (j : Json) : Except String (Option (List (Line String))) :=
+  match fieldOpt j "lay" with
+  | none => pure none
+  | some v => do
+    let a ← arr v
+    let ss ← a.mapM str
+    pure (some (ss.map lineOf))
+
+def ofLay : Option (List (Line String)) → Json
+  | none => Json.null
+  | some l => Json.arr (l.map ofLine).toArray
+
+/-- the line list the parser builds from a content (known for raw contents only) -/
+def layOfSym (t : List Entry) : Option Sym → Option (List (Line String))
+  | some (.raw l) => (t.find? (·.label == l)).bind (·.lay)
+  | _ => none
 
 def codec (t : List Entry) : Codec Sym String where
   text := .written
@@ -90,7 +125,13 @@ def callOf (j : Json) : Except String (Call Sym) := do
     | "raises" => pure LstOut.raises
     | "quiet" => pure LstOut.quiet
     | s => err s!"C19: bad lst {s}"
-  return ⟨cycles, ← boolField j "backup", ⟨← intField j "exit", ro, lst⟩⟩
+  let con ← match fieldOpt j "con" with
+    | none => pure ConOut.plain
+    | some (.str "plain") => pure ConOut.plain
+    | some (.str "raises") => pure ConOut.raises
+    | some (.str "nohkl") => pure ConOut.nohkl
+    | some v => err s!"C19: bad con {v.compress}"
+  return ⟨cycles, ← boolField j "backup", ⟨← intField j "exit", ro, lst, con⟩⟩
 
 def fixOf (j : Json) : Except String Fix :=
   match fieldOpt j "fix" with
@@ -99,7 +140,10 @@ def fixOf (j : Json) : Except String Fix :=
     let dow ← match fieldOpt f "dow" with
       | none => pure true
       | some v => bool v
-    pure ⟨← boolField f "stat", ← boolField f "lst", ← boolField f "stale", ← boolField f "acta", dow⟩
+    let con ← match fieldOpt f "con" with
+      | none => pure true
+      | some v => bool v
+    pure ⟨← boolField f "stat", ← boolField f "lst", ← boolField f "stale", ← boolField f "acta", dow, con⟩
 
 def ofDoc (d : Doc String) : Json :=
   Json.mkObj [("acta", match d.acta with
@@ -133,12 +177,15 @@ def handle (j : Json) : Except String Json := do
   | "seq" =>
     let fix ← fixOf j
     let table ← (← arrField j "table").mapM fun e => do
-      return (⟨← strField e "label", ← natField e "size", ← field e "doc" >>= docOf, ← boolField e "dow"⟩ : Entry)
+      return (⟨← strField e "label", ← natField e "size", ← field e "doc" >>= docOf, ← boolField e "dow", ← layOpt e⟩ : Entry)
     let c := codec table
     let init ← field j "init" >>= stOf
     let steps ← arrField j "steps"
     let mut mst := init          -- model state
     let mut ost := init          -- observed state
+    let lay0 ← field j "init" >>= (field · "mem") >>= layOpt
+    let mut mlay := lay0         -- model line list
+    let mut olay := lay0         -- observed line list
     let mut model : Array Json := #[]
     let mut spec : Array Json := #[]
     for s in steps do
@@ -150,18 +197,30 @@ def handle (j : Json) : Except String Json := do
         match load c mst w with
         | some st' =>
           mst := st'
-          model := model.push (Json.mkObj [("st", ofSt mst), ("exc", Json.null), ("op", Json.str "load")])
+          mlay := layOfSym table mst.fs.res
+          model := model.push (Json.mkObj [("st", ofSt mst), ("exc", Json.null), ("op", Json.str "load"), ("lay", ofLay mlay)])
         | none =>
-          model := model.push (Json.mkObj [("st", ofSt mst), ("exc", Json.str "FileNotFoundError"), ("op", Json.str "load")])
+          model := model.push (Json.mkObj [("st", ofSt mst), ("exc", Json.str "FileNotFoundError"), ("op", Json.str "load"),
+                                           ("lay", ofLay mlay)])
         spec := spec.push Json.null
         if let some o := fieldOpt s "obs" then
           ost ← field o "st" >>= stOf
+          olay ← field o "st" >>= (field · "mem") >>= layOpt
         continue
       let call ← callOf s
       let r := refine fix c mst call
       let hyp := Json.mkObj [("plausible", Json.bool (plausible c mst.fs.res call.out))]
+      -- list level: the list `reload()` builds from the result after a good run, else the list ACTA was taken out of
+      mlay := match mlay with
+        | none => none
+        | some l =>
+          if r.exc.isNone then
+            match layOfSym table r.st.fs.res with
+            | some ln => linesAfter l (some ln)
+            | none => none
+          else linesAfter l none
       model := model.push (Json.mkObj [("st", ofSt r.st), ("exc", excName r.exc), ("hyp", hyp),
-                                       ("meets_spec", Json.bool (specStep c mst call r))])
+                                       ("meets_spec", Json.bool (specStep c mst call r)), ("lay", ofLay mlay)])
       mst := r.st
       match fieldOpt s "obs" with
       | none => spec := spec.push Json.null
@@ -169,7 +228,19 @@ def handle (j : Json) : Except String Json := do
         let post ← field o "st" >>= stOf
         let raised ← boolField o "raised"
         let obs : Result Sym String := ⟨post, if raised then some .SystemExit else none⟩
+        let postLay ← field o "st" >>= (field · "mem") >>= layOpt
+        -- `specLines` on the observed lists, without the entries that print as nothing
+        let ok := started ost call && !failed c ost.fs.res call.out
+        let lines : Json := match olay, postLay with
+          | some l, some l' =>
+            let base := if ok then layOfSym table (left ost.fs.res call.out.res) else some (sansActa l)
+            match base with
+            | some b => Json.bool (specLines (actaText l) (squeeze b) (squeeze l'))
+            | none => Json.null
+          | _, _ => Json.null
+        olay := postLay
         spec := spec.push (Json.mkObj [
+          ("lines", lines),
           ("ins", Json.bool (specIns c ost call obs)), ("res", Json.bool (specRes c ost call obs)),
           ("bak", Json.bool (specBak c ost call obs)), ("mem", Json.bool (specMem c ost call obs)),
           ("started", Json.bool (started ost call)), ("failed", Json.bool (failed c ost.fs.res call.out)),
